@@ -129,6 +129,7 @@ fn flush_predicates<const D: usize>() {
     b.set_regime(r2);
     let full = b.queue_packet(&[9u8], Some(kani::any()), now);
     assert!(full == (d + 1 >= ref_threshold(r2)), "threshold of the CURRENT regime applies");
+    assert!(b.queued_count() as usize == d + 1, "the datagram is accepted whatever the depth (asking for a flush never drops it)");
     assert!(ref_threshold(r2) <= 32, "no regime holds more than 32 datagrams before asking for a flush");
     kani::cover!(full || d < 3, "a flush request is reachable at this depth");
     core::mem::forget(b);
